@@ -33,8 +33,32 @@ def Vote.conflicts (a b : Vote) : Prop := a.kind = b.kind ∧ a.h = b.h ∧ a.r 
 
 instance (a b : Vote) : Decidable (a.conflicts b) := by unfold Vote.conflicts; infer_instance
 
-/-- The effects peers / the chain can observe, in order. -/
-def visibleOf (es : List Effect) : List Effect := es.filter Effect.visible
+/-- What recovery must reproduce: the visible effects AND the timers armed (a pending timer has no
+log entry of its own; it exists after a restart only because replay arms it again). -/
+def Effect.observable : Effect → Bool
+  | .sendProposal .. => true
+  | .sendPrevote .. => true
+  | .sendPrecommit .. => true
+  | .deliver .. => true
+  | .setTimer .. => true
+  | _ => false
+
+/-- The effects peers / the chain can observe plus the timers armed, in order. -/
+def visibleOf (es : List Effect) : List Effect := es.filter Effect.observable
+
+/-- A timer: (step, height, round). -/
+structure Timer where
+  step : Nat
+  h : Nat
+  r : Int
+  deriving DecidableEq, Repr
+
+def Effect.timer? : Effect → Option Timer
+  | .setTimer st h r => some ⟨st, h, r⟩
+  | _ => none
+
+/-- The timers armed in an effect trace, in order. -/
+def timersOf (es : List Effect) : List Timer := es.filterMap Effect.timer?
 
 /-- Visible effects of executing an action list (the same in live and in replay mode, see
 `visible_effectsOf_mode`). -/
@@ -102,6 +126,8 @@ structure ReplaySafe {S} (M : Machine S) : Prop where
     M.height (M.step s i).1 = M.height s
   /-- Votes and proposals are sent for the current height only. -/
   votes_current_height : ∀ s i v, v ∈ votesOf (effectsOf true (M.step s i).2) → v.h = M.height s
+  /-- Timers are armed for the current height only. -/
+  timers_current_height : ∀ s i t, t ∈ timersOf (effectsOf true (M.step s i).2) → t.h = M.height s
   /-- Before `start`, MESSAGES are only stored: nothing visible, height and started unchanged.
   (Not so for timeouts: `ProcessTimeout` does not look at `isHeightStarted`; `listen` and the replay
   discipline `ReplayOK` never deliver one to an unstarted height.) -/
